@@ -1548,38 +1548,57 @@ class StateTie:
         self.freqs = []
         self.w2f = {}
         self.objs = []            # grid objects by label (None: interval grid nobody references)
-        self.top = {}             # name -> index
-        self.nested = {}          # name -> (index, i)
+        self.addr = {}            # name -> address in the model: [number of the top-level asset, numbers of the wrapped assets down the tree]
+        self.top = {}             # name -> index (top-level assets)
         self.assets_json = []
         self.ok = True
         self.why = None
-        self.primitives = []      # objects whose builder reads are recorded
+        self.primitives = []      # objects whose builder reads are recorded (every object the model records a read for)
         self.storages = []
+        self.shapes = set()       # which kinds of nesting the trees of this world hold (features)
         for idx, a in enumerate(world.assets):
             self.top[a.name] = idx
-            if hasattr(a, 'base_asset'):
-                b = a.base_asset
-                if hasattr(b, 'base_asset') or isinstance(b, StructuredAsset):
-                    self.ok, self.why = False, 'nested-wrapper'
-                self.nested[b.name] = (idx, 0)
-                self.assets_json.append({'kind': 'scaled', 'p': self.params(a), 'base': self.params(b)})
-                self.primitives += [b, a]
-            elif isinstance(a, StructuredAsset):
-                inner = list(a.portfolio.assets)
-                for i, b in enumerate(inner):
-                    if hasattr(b, 'base_asset') or isinstance(b, StructuredAsset):
-                        self.ok, self.why = False, 'nested-wrapper'
-                    self.nested[b.name] = (idx, i)
-                if type(a) is not StructuredAsset:
-                    self.ok, self.why = False, 'linked-asset'
-                self.assets_json.append({'kind': 'structured', 'p': self.params(a), 'inner': [self.params(b) for b in inner]})
-                self.primitives += inner
-            else:
-                self.assets_json.append({'kind': 'plain', 'p': self.params(a)})
-                self.primitives.append(a)
+            self.assets_json.append(self.tree(a, [idx], []))
             if isinstance(a, eao.assets.Storage):
                 self.storages.append(a)
         self.log = []
+
+    @staticmethod
+    def kids(a):
+        """the objects an asset object wraps, in the order of the model: base asset of a scaled asset / inner assets of a structured or linked asset"""
+        if hasattr(a, 'base_asset'):
+            return [a.base_asset]
+        if isinstance(a, StructuredAsset):
+            return list(a.portfolio.assets)
+        return []
+
+    def tree(self, a, ad, above):
+        """model tree (driver JSON) of the object `a` at address `ad`; `above`: kinds of the wrappers above it"""
+        if a.name in self.addr:
+            self.ok, self.why = False, 'object-twice-in-a-tree'       # Python aliasing: outside the model
+        self.addr[a.name] = list(ad)
+        if hasattr(a, 'base_asset'):
+            kind = 'scaled'
+        elif isinstance(a, StructuredAsset):
+            kind = 'structured' if type(a) is StructuredAsset else 'linked'
+        else:
+            kind = 'plain'
+        if above and kind != 'plain':
+            self.shapes.add('%s-in-%s' % (kind, above[-1]))
+        if len(above) >= 2:
+            self.shapes.add('depth>=%d' % min(len(above) + 1, 4))
+        if kind == 'linked':
+            self.shapes.add('linked')
+        j = {'kind': kind, 'p': self.params(a)}
+        ks = [self.tree(k, ad + [i], above + [kind]) for i, k in enumerate(self.kids(a))]
+        if kind == 'scaled':
+            j['base'] = ks[0]
+        elif kind != 'plain':
+            j['inner'] = ks
+        # the order of `primitives` is irrelevant (the log is written at return time)
+        if kind in ('plain', 'scaled') or (kind == 'linked' and ks):
+            self.primitives.append(a)
+        return j
 
     # ----- encoding
     def tok(self, ts):
@@ -1644,17 +1663,13 @@ class StateTie:
         l = self.label(tg, register=False)
         return l if l is not None else 'unregistered-object'
 
+    def obj_obs(self, a):
+        return {'grid': self.ptr(a), 'start': None if a.start is None else _naive_tok(a.start), 'stop': None if a.end is None else _naive_tok(a.end),
+                'sub': [self.obj_obs(k) for k in self.kids(a)]}
+
     def observe(self):
         W = self.W
-        o = {'pf': self.ptr(W.portf), 'assets': [], 'grids': []}
-        for a in W.assets:
-            subs = []
-            if hasattr(a, 'base_asset'):
-                subs = [a.base_asset]
-            elif isinstance(a, StructuredAsset):
-                subs = list(a.portfolio.assets)
-            o['assets'].append({'grid': self.ptr(a), 'sub': [{'grid': self.ptr(b), 'start': None if b.start is None else _naive_tok(b.start),
-                                                              'stop': None if b.end is None else _naive_tok(b.end)} for b in subs]})
+        o = {'pf': self.ptr(W.portf), 'assets': [self.obj_obs(a) for a in W.assets], 'grids': []}
         for tg in self.objs:
             if tg is None:
                 o['grids'].append(None)
@@ -1679,30 +1694,46 @@ class StateTie:
         freq = self.freqs[slot[2]] if slot[2] is not None else c.freq
         return c, eao.Timegrid(start, end, freq=freq, main_time_unit=c.main_time_unit, ref_timegrid=c)
 
+    def tokens(self):
+        """(window token, kind of writer) for every object of every tree, in the order in which `writer_kind` tries them: the window an
+        object has DURING a set-up through its wrappers (clipped by every wrapper above it) and, for wrapped objects, its own window"""
+        if getattr(self, '_tokens', None) is not None:
+            return self._tokens
+        out = []
+        mx = lambda a, b: a if b is None else (b if a is None else max(a, b))
+        mn = lambda a, b: a if b is None else (b if a is None else min(a, b))
+
+        def walk(j, above, cs, ce):
+            p = j['p']
+            es, ee = mx(p['start'], cs), mn(p['stop'], ce)
+            clipped = (es, ee) != (p['start'], p['stop'])
+            k = j['kind']
+            own = []
+            for c in ([j['base']] if k == 'scaled' else j.get('inner', [])):
+                own += walk(c, above + [k], es, ee)
+            if not above:
+                kind = {'plain': 'plain-asset', 'scaled': 'scaled-wrapper', 'structured': 'structured-wrapper', 'linked': 'linked-wrapper'}[k]
+            elif k == 'plain' and len(above) == 1:
+                kind = 'scaled-base' if above[0] == 'scaled' else ('structured-inner-clipped' if clipped else 'structured-inner')
+            else:
+                kind = 'nested-%s%s' % ({'plain': 'leaf', 'scaled': 'scaled-wrapper', 'structured': 'structured-wrapper', 'linked': 'linked-wrapper'}[k],
+                                         '-clipped' if clipped else '')
+            out.append(((es, ee, p['freq']), kind))
+            if above:
+                own.append(((p['start'], p['stop'], p['freq']), 'inner-direct'))
+            return own
+        for j in self.assets_json:
+            out += walk(j, [], None, None)
+        self._tokens = out
+        return out
+
     def writer_kind(self, slot):
         if slot is None:
             return 'empty'
         t = tuple(slot)
-        for aj in self.assets_json:
-            pt = lambda q: (q['start'], q['stop'], q['freq'])
-            if aj['kind'] == 'plain' and pt(aj['p']) == t:
-                return 'plain-asset'
-            if aj['kind'] == 'scaled':
-                if pt(aj['base']) == t:
-                    return 'scaled-base'
-                if pt(aj['p']) == t:
-                    return 'scaled-wrapper'
-            if aj['kind'] == 'structured':
-                p = aj['p']
-                for q in aj['inner']:
-                    cs = q['start'] if p['start'] is None else (p['start'] if q['start'] is None else max(q['start'], p['start']))
-                    ce = q['stop'] if p['stop'] is None else (p['stop'] if q['stop'] is None else min(q['stop'], p['stop']))
-                    if (cs, ce, q['freq']) == t:
-                        return 'structured-inner-clipped' if (cs, ce) != (q['start'], q['stop']) else 'structured-inner'
-                    if pt(q) == t:
-                        return 'inner-direct'
-                if pt(p) == t:
-                    return 'structured-wrapper'
+        for tok, kind in self.tokens():
+            if tok == t:
+                return kind
         return 'slp-present/future'
 
 
@@ -1742,6 +1773,7 @@ def state_execute(case, drv, max_dis=6, version=None):
     if not T.ok:
         feats.append('state-skip:' + T.why)
         return out
+    feats += ['state-tree:' + x for x in sorted(T.shapes)]
     steps = []          # per real operation: dict(call, group, raised, reads, obs)
     interval_labels = set()
     last = None
@@ -1769,15 +1801,15 @@ def state_execute(case, drv, max_dis=6, version=None):
         raised = None
         post_setup_error = None
         nm = call.get('asset')
-        where = (('top', T.top[nm]) if nm in T.top else ('sub',) + T.nested[nm]) if nm is not None else None
+        where = T.addr[nm] if nm is not None else None          # address of the object in the model
         with Quiet(), T:
             try:
                 if o in ('asset_setup', 'asset_noarg'):
                     gg = g if o == 'asset_setup' else None
-                    group = [{'call': 'setup', 'a': where[1], 'g': gg}] if where[0] == 'top' else [{'call': 'setupSub', 'a': where[1], 'i': where[2], 'g': gg}]
+                    group = [{'call': 'setup', 'ad': where, 'g': gg}]
                     run_setup_call(W, call)
                 elif o == 'set_timegrid':
-                    group = [{'call': 'setTimegrid', 'a': where[1], 'g': g}] if where[0] == 'top' else [{'call': 'setTimegridSub', 'a': where[1], 'i': where[2], 'g': g}]
+                    group = [{'call': 'setTimegrid', 'ad': where, 'g': g}]
                     W.byname[nm].set_timegrid(tg)
                 elif o == 'pf_setup':
                     group = [{'call': 'setupPortfolio', 'g': g}]
@@ -1832,9 +1864,9 @@ def state_execute(case, drv, max_dis=6, version=None):
                         continue
                     if o in ('dcf', 'fill_level'):
                         a = W.byname[nm]
-                        if where[0] != 'top' or (o == 'fill_level' and not isinstance(a, eao.assets.Storage)):
+                        if len(where) != 1 or (o == 'fill_level' and not isinstance(a, eao.assets.Storage)):
                             continue
-                        group = [{'call': 'dcf', 'a': where[1]}] if o == 'dcf' else []      # fill_level: from the log
+                        group = [{'call': 'dcf', 'a': where[0]}] if o == 'dcf' else []      # fill_level: from the log
                     elif o == 'extract':
                         group = []
                     elif o == 'make_slp':
@@ -1896,7 +1928,10 @@ def state_execute(case, drv, max_dis=6, version=None):
             break
         out['ops'] += 1
         for c in st['group']:
-            feats.append('state-op:' + c['call'] + ('(no grid arg)' if c['call'] in ('setup', 'setupSub', 'setupPortfolio') and c.get('g') is None else ''))
+            cn = c['call']
+            if cn in ('setup', 'setTimegrid') and len(c['ad']) > 1:
+                cn += 'Sub' if len(c['ad']) == 2 else 'Sub(depth %d)' % min(len(c['ad']) - 1, 3)
+            feats.append('state-op:' + cn + ('(no grid arg)' if c['call'] in ('setup', 'setupPortfolio') and c.get('g') is None else ''))
         # theorem at run time: what the model's builders read is what setupPure predicts
         if version is None and ms['results'] != ms['pure']:
             D(st, 'model-internal: setupSt result %s differs from setupPure %s' % (ms['results'], ms['pure']))
@@ -1934,18 +1969,18 @@ def state_execute(case, drv, max_dis=6, version=None):
         out['observables'] += 1
         if ob['pf'] != ms['pf']:
             D(st, 'portfolio grid pointer: real %s vs model %s' % (ob['pf'], ms['pf']))
-        for ai, (ra, ma) in enumerate(zip(ob['assets'], ms['assets'])):
-            out['observables'] += 1
-            if ra['grid'] != ma['grid']:
-                D(st, 'asset %s grid pointer: real %s vs model %s' % (W.assets[ai].name, ra['grid'], ma['grid']))
+        def cmp_obj(ra, ma, path):
+            out['observables'] += 3
+            for k in ('grid', 'start', 'stop'):
+                if ra[k] != ma[k]:
+                    D(st, 'object %s %s: real %s vs model %s' % (path, {'grid': 'grid pointer'}.get(k, k), ra[k], ma[k]))
             if len(ra['sub']) != len(ma['sub']):
-                D(st, 'asset %s: %d wrapped assets (real) vs %d (model)' % (W.assets[ai].name, len(ra['sub']), len(ma['sub'])))
-                continue
+                D(st, 'object %s: %d wrapped assets (real) vs %d (model)' % (path, len(ra['sub']), len(ma['sub'])))
+                return
             for si, (rs, msb) in enumerate(zip(ra['sub'], ma['sub'])):
-                out['observables'] += 3
-                for k in ('grid', 'start', 'stop'):
-                    if rs[k] != msb[k]:
-                        D(st, 'asset %s wrapped asset %d %s: real %s vs model %s' % (W.assets[ai].name, si, k, rs[k], msb[k]))
+                cmp_obj(rs, msb, '%s/%d' % (path, si))
+        for ai, (ra, ma) in enumerate(zip(ob['assets'], ms['assets'])):
+            cmp_obj(ra, ma, W.assets[ai].name)
         # grid slots
         for gi, (rg, mg) in enumerate(zip(ob['grids'], ms['grids'])):
             if rg is None:
